@@ -230,4 +230,27 @@ theorem blobUnpack_eq_plan (data : Bytes) :
           cases afterEnveloped ed (List.drop (h.tagLength + h.length) data) <;> rfl
       · simp (config := { decide := true }) [hct, throw, throwThe, MonadExceptOf.throw, List.any, Cond.holds, eval, p, List.foldl, List.lookup, Val.field, Except.map]
 
+theorem optBytes_injective {a b : Option Bytes} (h : optBytes a = optBytes b) : a = b := by
+  cases a <;> cases b <;> simp_all [optBytes]
+
+theorem KeyId.toVal_injective {a b : Gkdi.KeyId} (h : KeyId.toVal a = KeyId.toVal b) : a = b := by
+  obtain ⟨v, f, l0, l1, l2, rk, ki, dn, fn⟩ := a
+  obtain ⟨v', f', l0', l1', l2', rk', ki', dn', fn'⟩ := b
+  simp only [KeyId.toVal, Val.obj.injEq, List.cons.injEq, Prod.mk.injEq, Val.int.injEq, Val.bytes.injEq, true_and, and_true, Int.natCast_inj] at h
+  obtain ⟨h1, h2, h3, h4, h5, h6, h7, h8, h9⟩ := h
+  subst h1 h2 h3 h4 h5 h6 h7 h8 h9
+  rfl
+
+/-- the `Val` image pins the blob down: equal images, equal blobs (so `blobUnpack_eq_plan` determines `blobUnpack`) -/
+theorem Blob.toVal_injective {a b : Blob} (h : Blob.toVal a = Blob.toVal b) : a = b := by
+  obtain ⟨k, sid, ck, ca, cp, ec, ea, ep⟩ := a
+  obtain ⟨k', sid', ck', ca', cp', ec', ea', ep'⟩ := b
+  simp only [Blob.toVal, Val.obj.injEq, List.cons.injEq, Prod.mk.injEq, Val.bytes.injEq, Val.oid.injEq, true_and, and_true] at h
+  obtain ⟨h1, h2, h3, h4, h5, h6, h7, h8⟩ := h
+  have := KeyId.toVal_injective h1
+  have := optBytes_injective h5
+  have := optBytes_injective h8
+  subst_vars
+  rfl
+
 end DpapiNg.Blob
